@@ -57,16 +57,16 @@ theorem step_refines {s : State} {h : List Ev} (hinv : Inv s) (ha : AbsIs3 s h) 
     simp only [evsOf]
     simp only [step]
     by_cases hb : commitLocked s.phase = true
-    · simp only [hb, if_true, reduceCtorEq, if_false, List.append_nil]; exact ⟨hinv, ha⟩
+    · simp only [hb, if_true, reduceCtorEq, if_false, List.append_nil]; exact ⟨inv_touch hinv, ha⟩
     · simp only [hb, Bool.false_eq_true, if_false, if_true]
       have hp : s.phase ≠ .replaced := by
         intro h'; rw [h'] at hb; exact hb rfl
       exact ⟨inv_stepDelete hinv _ _ _ hp, fun k t => by rw [abs_stepDelete hs, cell_del, ha]⟩
   · exact ⟨inv_stepSnapBegin hinv, fun k t => by
       simp only [evsOf, List.append_nil]; rw [← ha k t]; exact abs_stepSnapBegin hinv k t⟩
-  · exact ⟨inv_stepSnapStep hinv, fun k t => by
+  · exact ⟨inv_touch (inv_stepSnapStep hinv), fun k t => by
       simp only [evsOf, List.append_nil]; rw [← ha k t]; exact abs_stepSnapStep hinv k t⟩
-  · exact ⟨inv_stepSnapTo hinv _, fun k t => by
+  · exact ⟨inv_touch (inv_stepSnapTo hinv _), fun k t => by
       simp only [evsOf, List.append_nil]; rw [← ha k t]; exact abs_stepSnapTo hinv _ k t⟩
   · rename_i i j
     simp only [step, evsOf, List.append_nil]
@@ -74,9 +74,9 @@ theorem step_refines {s : State} {h : List Ev} (hinv : Inv s) (ha : AbsIs3 s h) 
     · simp only [hv, if_true]
       exact ⟨inv_compact hinv i j (validGroup_le hv), fun k t => by
         rw [← ha k t]; exact abs_compact s i j (validGroup_le hv) k t⟩
-    · simp only [hv, Bool.false_eq_true, if_false]; exact ⟨hinv, ha⟩
-  · exact ⟨hinv, by simpa [evsOf, step] using ha⟩
-  · exact ⟨hinv, by simpa [evsOf, step] using ha⟩
+    · simp only [hv, Bool.false_eq_true, if_false]; exact ⟨inv_touch hinv, ha⟩
+  · exact ⟨inv_touch hinv, by simpa [evsOf, step] using ha⟩
+  · exact ⟨inv_touch hinv, by simpa [evsOf, step] using ha⟩
 
 theorem safeFrom_cons {s : State} {op : Op} {ops : List Op} (h : safeFrom s (op :: ops) = true) :
     safeFrom s [op] = true ∧ safeFrom (step s op).1 ops = true := by
